@@ -109,6 +109,12 @@ impl Ident {
             bail!("this variable does not have a type; it can't be wrapped in a callback")
         };
 
+        // a captured variable seen from a deeper function is still that captured variable
+        if ty.is_directly_callback_variable() {
+            self.ty = Some(ty);
+            return Ok(self);
+        }
+
         self.ty = Some(Cow::Owned(TypeLayout::CallbackVariable(
             ty.into_owned().into(),
         )));
